@@ -276,6 +276,67 @@ def check_evaluator(ctx):
     ctx.floor("R16.5", "truth tests in the crediting loop", n5, 2)
 
 
+def check_no_data_record(ctx):
+    """R16.6: writer/reader agreement on 'this arm has no observation in the neighbourhood'. default_evaluator
+    decides it by the truth value of the arm's record, so every producer of neighbourhood records must emit a falsy
+    value (the empty dict) for such an arm; a record like {'count': 0, ...} is truthy and would be credited as 0."""
+    prog = ctx.prog
+    ev_fn = prog.function("simulator", "default_evaluator")
+    loops = [s for s in ev_fn.node.body if isinstance(s, ast.For)]
+    truth_tested = False
+    for x in ast.walk(ev_fn.node):
+        if isinstance(x, (ast.If, ast.IfExp)):
+            parts = x.test.values if isinstance(x.test, ast.BoolOp) else [x.test]
+            for t in parts:
+                if isinstance(t, ast.Subscript) and not isinstance(t.slice, ast.Constant) and \
+                        not isinstance(parent(t), ast.Compare):
+                    truth_tested = True
+    if not truth_tested:
+        ctx.ok("R16.6", "default_evaluator does not decide 'no observation' by the truth value of a record",
+               ev_fn.node, ev_fn, construct="def default_evaluator (no-data test)")
+        return
+    writer = prog.method("_NeighborsSimulator", "_get_nhood_predictions")
+    ctx.saw_fn(writer)
+    seen, todo = set(), [writer]
+    mod = prog.modules["simulator"]
+    zero_records = []
+    while todo:
+        f = todo.pop()
+        if f.qualname in seen:
+            continue
+        seen.add(f.qualname)
+        for n in ast.walk(f.node):
+            if isinstance(n, ast.Dict) and n.keys and all(isinstance(k, ast.Constant) for k in n.keys):
+                kv = {k.value: v for k, v in zip(n.keys, n.values)}
+                if "count" in kv and isinstance(kv["count"], ast.Constant) and kv["count"].value == 0:
+                    zero_records.append((n, f))
+            if isinstance(n, ast.Call):
+                name = None
+                if isinstance(n.func, ast.Name):
+                    name = n.func.id
+                    g = mod.functions.get(name)
+                    if g is not None:
+                        todo.append(g)
+                elif isinstance(n.func, ast.Attribute) and isinstance(n.func.value, ast.Name):
+                    if n.func.value.id == "self" and f.cls is not None:
+                        g = f.cls.resolve(n.func.attr)
+                        if g is not None and g.module is mod:
+                            todo.append(g)
+                    elif n.func.value.id in mod.classes:
+                        g = mod.classes[n.func.value.id].resolve(n.func.attr)
+                        if g is not None:
+                            todo.append(g)
+    if not zero_records:
+        ctx.ok("R16.6", "producers of neighbourhood records emit no non-empty record for an arm without observation",
+               writer.node, writer, "functions searched: %s" % sorted(seen),
+               construct="def _NeighborsSimulator._get_nhood_predictions (no-data record)")
+    for n, f in zero_records:
+        ctx.violate("R16.6", "producers of neighbourhood records emit no non-empty record for an arm without "
+                    "observation", n, f, "`%s` is reachable from _NeighborsSimulator._get_nhood_predictions: it is "
+                    "truthy, so default_evaluator takes it for neighbourhood data and credits its statistic "
+                    "(0) instead of falling back to the training statistic" % ast.unparse(n)[:70])
+
+
 def check_split(ctx):
     prog = ctx.prog
     fn = prog.method("Simulator", "_run_train_test_split")
@@ -390,7 +451,7 @@ def check_stats(ctx):
     for fn, d, ks in keysets:
         ctx.check(set(ks) == set(base), "R16.4", "statistics record of %s has the common key set" % fn.qualname, d, fn,
                   "keys %s vs %s" % (ks, base))
-    ctx.floor("R16.4", "statistics record literals", len(keysets), 4)
+    ctx.floor("R16.4", "statistics record literals", len(keysets), 3)
     # per-bandit result lists are accumulated in order: X[name] = X[name] + new
     n = 0
     for meth in ("_offline_test_bandits", "_online_test_bandits_chunks"):
@@ -425,8 +486,10 @@ def check(ctx):
     ctx.rule("R16.2", "one credit per prediction; observed reward iff prediction == decision")
     ctx.rule("R16.3", "split operands/targets paired")
     ctx.rule("R16.4", "statistics origins, record schema, ordered accumulation")
+    ctx.rule("R16.6", "producers and consumer of neighbourhood records agree on the 'no observation' value")
     ctx.rule("R16.5", "presence of a neighbourhood statistic is decided on containers, not on the number")
     check_windows(ctx)
     check_evaluator(ctx)
+    check_no_data_record(ctx)
     check_split(ctx)
     check_stats(ctx)
